@@ -75,7 +75,7 @@ def proof_read_source(n, c):
     return None
 
 
-def run_taint(ck, w, roots, rule, triage, stop=None):
+def run_taint(ck, w, roots, rule, triage, stop=None, skip_kinds=()):
     for r in roots:
         w.fn(r)
     par = reach.closure(w, roots, stop or (lambda nid: False))
@@ -111,14 +111,16 @@ def run_taint(ck, w, roots, rule, triage, stop=None):
     ck.count(f'{rule}:tainted fields', sum(1 for v in ta.field_taint.values() if v))
     ck.count(f'{rule}:tainted params', sum(1 for v in ta.param_taint.values() if v))
     used = set()
+    found = [fd for fd in found if fd.kind not in skip_kinds]
     for fd in sorted(found, key=lambda x: x.key()):
         key = fd.key()
         f = w.fn(fd.fn)
         loc = f"{f['file']}:{fd.line}"
         labs = ', '.join(sorted(taint.names(fd.labels)))
-        if key in triage:
+        alt = key.replace('|assert-on-checked|', '|assert|') if '|assert-on-checked|' in key else key.replace('|assert|', '|assert-on-checked|')
+        if key in triage or alt in triage:
             used.add(key)
-            ck.ok(rule, key, 'triaged: ' + triage[key], loc)
+            ck.ok(rule, key, 'triaged: ' + (triage.get(key) or triage.get(alt)), loc)
         else:
             cg = w.callgraph()
             path = ' -> '.join(short(p) for p in cg.path_to(par, fd.fn)) if fd.fn in par else short(fd.fn)
